@@ -93,11 +93,12 @@ def get_combinations_from_columns(all_columns: pd.Index, args: Any) -> list[tupl
             combinations = list(_combinations)
 
     if args.target_ranking_only != 'True':
-        # Diagonal elements (non-label)
+        # Diagonal elements (non-label) that are not listed yet
+        listed_combinations = set(combinations)
         combinations += [
             (individual_column, individual_column)
             for individual_column in all_columns
-            if individual_column != args.label_column
+            if individual_column != args.label_column and (individual_column, individual_column) not in listed_combinations
         ]
     return combinations
 
